@@ -48,6 +48,7 @@ Choices(o, c, f, sec) ==
   {None}
   \cup (CASE c.k = "none" -> {Entry("dir", 0, fresh)}
                               \cup (IF f = "stream" THEN {Entry("cmp", 0, fresh)} ELSE {})
+                              \cup (IF sec = 1 THEN {Entry("free", 0, 0)} ELSE {})   \* a number the original lists as free, never used
           [] c.k = "dir"  -> {Entry("dir", c.g, fresh), Entry("free", c.g + 1, 0)}
                               \cup (IF f = "stream" /\ c.g = 0 THEN {Entry("cmp", 0, fresh)} ELSE {})
           [] c.k = "cmp"  -> {Entry("dir", 0, fresh), Entry("free", 1, 0)}
